@@ -169,6 +169,27 @@ func c06FixedPlans() []planCase {
 			out = append(out, planCase{Plan: p})
 		}
 	}
+	// an empty input first, then a dense input nearly all of whose documents are deleted, then a
+	// small one: per-input arrays (dictionaries, deletion bitmaps) of the inputs that HAVE the field
+	// are shorter than the input list
+	for _, cm := range []uint32{1026, 1025} {
+		var drop spec.DropSpec
+		for d := 0; d < 1100; d++ {
+			if d != 3 && d != 500 && d != 1099 {
+				drop.Docs = append(drop.Docs, uint32(d))
+			}
+		}
+		one := &spec.BatchSpec{Docs: []spec.DocSpec{{ID: "one", Fields: []spec.FieldSpec{{Name: spec.WideFieldName, Type: 't', DV: true, Len: 1,
+			Tokens: []spec.TokenSpec{{Term: "all", Freq: 1, Locs: []spec.LocSpec{{Pos: 1, Start: 0, End: 3}}}}}}}}}
+		out = append(out, planCase{Plan: &spec.MergePlan{ChunkMode: cm, Children: []spec.MergePlan{{Leaf: &spec.BatchSpec{}},
+			{Leaf: &spec.BatchSpec{Wide: &spec.WideSpec{N: 1100, Locs: true, DV: true}}, Mmap: true}, {Leaf: one}},
+			Drops: []spec.DropSpec{{Nil: true}, drop, {}}}})
+		// ... and with a single survivor in the whole merge
+		drop1 := spec.DropSpec{Docs: append(append([]uint32(nil), drop.Docs...), 500, 1099)}
+		out = append(out, planCase{Plan: &spec.MergePlan{ChunkMode: cm, Children: []spec.MergePlan{{Leaf: &spec.BatchSpec{}},
+			{Leaf: &spec.BatchSpec{Wide: &spec.WideSpec{N: 1100, Locs: true, DV: true}}, Mmap: true}},
+			Drops: []spec.DropSpec{{Nil: true}, drop1}}})
+	}
 	// 140 fields with locations, merged by re-encoding (the second input has one more field): field
 	// ids cross the 127/128 varint boundary inside the location records
 	many := func(label string, extra bool) spec.MergePlan {
@@ -197,5 +218,15 @@ func TestC06Fixed(t *testing.T) {
 	for _, c := range c06FixedPlans() {
 		col.CaseHash(stats.HashJSON(c), true, []string{"dense-last-term-then-sparse-first-term"}, func() any { return sampleOf(c) })
 		reportBig(t, col, "C06", "merge-index", c, safeRun(c06, c))
+	}
+}
+
+// The same deterministic merge scenarios, checked for numbering, stored data and field lists.
+func TestC05Fixed(t *testing.T) {
+	col := stats.New("C05", "merge-stored")
+	defer col.Write()
+	for _, c := range c06FixedPlans() {
+		col.CaseHash(stats.HashJSON(c), true, []string{"fixed-merge-scenarios"}, func() any { return sampleOf(c) })
+		reportBig(t, col, "C05", "merge-stored", c, safeRun(c05, c))
 	}
 }
